@@ -21,6 +21,7 @@ func checkC04(c *Ctx, r *Report) {
 	c04verdict(c, r, "C04-verdict")
 	c04frame(c, r, "C04-frame")
 	hdrCheckRule(c, r, "C04-hdrcheck")
+	c04Extra(c, r)
 	c04closeVerdict(c, r, "C04-close-verdict")
 	r.Rule("C04-deliver", 3, "only verified data is delivered; sent only after confirmation")
 	c02process(c, r, "C04-deliver")
